@@ -1,0 +1,15 @@
+//go:build verif
+
+// Assumed contract of the conversion from math/big (comment-only; installed by /verif/gcv gen-contracts): SetBigInt goes
+// through a sync.Pool and big.Int.Bits, which are outside the subset; what its callers rely on is its documented meaning.
+
+package fr
+
+//@ func Element.SetBigInt
+//@ tags any
+//@ assumed conversion from math/big (sync.Pool, big.Int.Bits are outside the subset): documented meaning, z = v mod q in Montgomery form
+//@ layer bigint big.Int
+//@ ensures[value] reg(val(z)) == bigmod(*v, q) && val(z) < q
+//@ ensures[result] result == z
+//@ modifies z
+//@ end
